@@ -227,8 +227,8 @@ def shipped_maker(o, k):
             for x, f in zip(X, F):
                 pde.assemble(f.copy())
                 sol, info = pde.solve()
-                outs.append(np.asarray(pde.observe(sol), float))
-                outs.append(np.asarray(model.forward(x.copy()), float))
+                outs.append(np.array(pde.observe(sol), dtype=float, copy=True))      # a snapshot: aliasing inside ONE object is the business of the reuse cells
+                outs.append(np.array(model.forward(x.copy()), dtype=float, copy=True))
             return outs
         return evaluate, expected
     return make
@@ -309,8 +309,8 @@ def generic_maker(o, k, form_cache):
             for x in xs:
                 pde.assemble(x.copy())
                 sol, info = pde.solve()
-                outs.append(np.asarray(pde.observe(sol), float))
-                outs.append(np.asarray(model.forward(x.copy()), float))
+                outs.append(np.array(pde.observe(sol), dtype=float, copy=True))      # a snapshot: aliasing inside ONE object is the business of the reuse cells
+                outs.append(np.array(model.forward(x.copy()), dtype=float, copy=True))
             return outs
         return evaluate, expected
     return make
